@@ -161,7 +161,9 @@ def gen_bindkeys(rng, tier):
                 data = []
                 for k in keys:
                     r = rng.random()
-                    if r < 0.4:
+                    if r < 0.12:
+                        shape = "null"
+                    elif r < 0.4:
                         shape = "scalar"
                     elif r < 0.7:
                         shape = "array"
@@ -283,11 +285,20 @@ def check_injection(a, routes=L.ROUTES):
     desc, cfg, clazz = a["desc"], a["config"], a["clazz"]
     orig, tree = a["_orig"], a["tree"]
     okey = (u.modname, json.dumps(orig, sort_keys=True))
-    labels = _cached(("lab",) + okey, lambda: L.label_elements(u, clazz, orig))
+    if a.get("_union_classes") is not None:
+        # subtrees bound by a UnionNode are labelled the way the class they were written from binds them
+        labels, inside = _cached(("ulab",) + okey, lambda: L.resolve_union_labels(u, clazz, orig, a["_union_classes"]))
+    else:
+        labels, inside = _cached(("lab",) + okey, lambda: L.label_elements(u, clazz, orig)), ()
     lab = labels.get(tuple(inj["path"]))
-    if lab is None:
+    if lab is None or lab[0] == "union":
         return None
+    in_union = tuple(inj["path"]) in inside
     kind = inj["kind"]
+    if in_union and kind in ("text", "attr-value"):
+        # which candidate class "declares" a value is itself decided by converting it (the replay is
+        # strict about conversions to tell the candidates apart): no claim inside a union element
+        return None
     if kind in ("attr", "xsi-attr") and any(k == "{%s}nil" % L.XSI for k, _ in G.tree_at(orig, inj["path"])["a"]):
         return None  # a nil element is built without looking at its attributes at all
     for route in routes:
@@ -296,7 +307,7 @@ def check_injection(a, routes=L.ROUTES):
             continue  # the document itself is not accepted on this route: nothing to compare with
         r1 = L.parse_route(u, clazz, tree, cfg, route)
         STATS[kind + ":" + lab[0]] += 1
-        where = f"[{route}, cfg={L.cfg_key(cfg)}, parent={lab[0]}:{lab[1] if len(lab) > 1 else ''}]"
+        where = f"[{route}, cfg={L.cfg_key(cfg)}, parent={lab[0]}:{lab[1] if len(lab) > 1 else ''}{', inside a union element' if in_union else ''}]"
         if kind == "element":
             if lab[0] in ("element", "wrapper"):
                 if L.declares_wildcard(desc, lab[1]):
@@ -307,7 +318,13 @@ def check_injection(a, routes=L.ROUTES):
                 elif r1 != {"err": "ParserError"}:
                     return f"{where} strict: unknown <{inj['sub']['q']}> ({inj['shape']}) at child position {inj['pos']} did not raise ParserError: {_short(r1)}"
             elif lab[0] in ("primitive", "standard"):
-                if r1 != {"err": "XmlContextError"}:
+                if in_union:
+                    # with unknown properties failing no candidate can take the element: the one that declares the
+                    # simple-typed element rejects the child, the others do not know the element at all; when they
+                    # are skipped any other candidate may bind the (then empty) element: no claim
+                    if cfg["fail_on_unknown_properties"] and r1.get("err") not in ("ParserError", "XmlContextError"):
+                        return f"{where} child element inside a simple-typed element was accepted: {_short(r1)}"
+                elif r1 != {"err": "XmlContextError"}:
                     return f"{where} child element inside a simple-typed element did not raise XmlContextError: {_short(r1)}"
         elif kind == "xsi-attr":
             if lab[0] in ("element", "primitive") and inj["q"] not in [k for k, _ in G.tree_at(orig, inj["path"])["a"]]:
@@ -413,6 +430,7 @@ def covered_injection(a, msg):
 
 
 def gen_oracle_inject(rng, tier):
+    yield from gen_union_xml(random.Random(rng.random()), tier)
     for a in gen_inject(rng, tier):
         if "_inj" in a:
             yield a
@@ -464,7 +482,7 @@ ORACLES = [
     Oracle("dict-documents-and-sequences", lambda rng, tier: gen_dict_seq(rng, tier), lambda a: check_dict_seq(a), from_ops=("c10.dict_seq",)),
     Oracle("shared-metadata", lambda rng, tier: gen_metastate(rng, tier), lambda a: check_metastate(a), from_ops=("bind.metastate",)),
     Oracle("unknown-content-in-documents", gen_oracle_inject, check_injection, covered=covered_injection,
-           from_ops=("bind.parse", "c10.xml_e2e"), adapt=lambda op, a: a if "_inj" in a else None),
+           from_ops=("bind.parse", "c10.xml_e2e", "c10.union_xml"), adapt=lambda op, a: a if "_inj" in a else None),
     Oracle("unknown-keys-in-dictionaries", gen_dict_cases, check_dict, covered=covered_dict),
 ]
 
@@ -621,7 +639,7 @@ XML_ROUTES = ("native", "lxml")
 
 def gen_xml_e2e(rng, tier):
     n_uni = n_cases(tier, 3, 10)
-    per_doc = n_cases(tier, 40, 80)
+    per_doc = n_cases(tier, 30, 80)
     for feats in FEATURE_SETS:
         for _ in range(n_uni):
             u, desc, ctx = new_universe(rng, feats)
@@ -694,7 +712,52 @@ def check_metastate(a):
     return None
 
 
+def gen_union_xml(rng, tier):
+    per_doc = n_cases(tier, 40, 120)
+    for i in range(n_cases(tier, 12, 80)):
+        desc = L.union_desc(rng)
+        u = uni_of({"desc": desc})
+        try:
+            obj = L.union_instance(rng, u)
+            tree = G.xml_tree(G.real_serialize(u, obj, writer=rng.choice(["native", "lxml"])).encode())
+            occ = L.union_occurrences(u, obj)
+            labels, inside = L.resolve_union_labels(u, "Root", tree, occ)
+        except Exception:  # noqa: BLE001
+            continue
+        combos = [(inj, cfg) for inj in injection_points(tree) for cfg in L.CFG8]
+        # two thirds of the budget on/below the union elements, the rest elsewhere in the same document
+        inner = [c for c in combos if tuple(c[0]["path"]) in inside]
+        outer = [c for c in combos if tuple(c[0]["path"]) not in inside]
+        picked = stratified(rng, inner, labels, 2 * per_doc // 3) + stratified(rng, outer, labels, per_doc // 3)
+        for inj, cfg in picked:
+            yield {"tree": apply_injection(tree, inj), "clazz": "Root", "config": cfg, "desc": desc, "_uni": u.modname,
+                   "_kind": inj["kind"] + ("@union" if tuple(inj["path"]) in inside else ""), "_inj": inj, "_orig": tree, "_union_classes": occ}
+
+
+def impl_union_xml(a):
+    msg = check_injection(a, L.ROUTES)
+    return {"ok": "as stated"} if msg is None else {"err": msg}
+
+
+def gen_unioncfg(rng, tier):
+    for cfg in L.CFG8:
+        for doc in ("plain", "unknown-attr", "bad-value"):
+            yield {"config": cfg, "doc": doc}
+
+
+def impl_unioncfg(a):
+    return L.real_unioncfg(a["config"], a["doc"])
+
+
 CORRS += [
+    Corr("bind.unioncfg", gen_unioncfg, impl_unioncfg,
+         describe="the ParserConfig UnionNode.bind hands to the parsers that replay the recorded events for the candidate classes, and the "
+                  "caller's ParserConfig afterwards, vs unionReplayConfig"),
+    Corr("c10.union_xml", gen_union_xml, impl_union_xml, spec=lambda a: {"ok": "as stated"}, compare=cmp_xml_e2e,
+         classify=lambda a, o: f"{a['_kind']}:{L.cfg_key(a['config'])}:{'ok' if 'ok' in o else 'deviates'}",
+         describe="spec-level: documents of universes with fields that are unions of dataclasses (single, list, inside a child class; "
+                  "UnionNode replay): unknown elements / attributes / xsi attributes on and below the union-bound elements and elsewhere, "
+                  "8 configs, EventsHandler + both byte handlers, vs the statement"),
     Corr("bind.metastate", gen_metastate, impl_metastate, compare=cmp_metastate,
          classify=lambda a, o: f"{a['_kind']}:{'+'.join(L.cfg_key(c['config']) for c in a['calls'])}:"
                                + ("changed" if o.get("ok", {}).get("changed") else "same"),
